@@ -42,7 +42,7 @@ def main():
         hit = [v for v in res.violations if v.signature() == rp['signature']]
         print(f"replay {a.replay}: family={rp['family']} seed={rp['seed']} ops={len(rp['case']['plan'])}")
         if a.trace:
-            for t in (res.trace or [])[-400:]:
+            for t in (res.trace or [])[-int(os.environ.get('TRACE_N', '400')):]:
                 print(t)
             for r in (res.log or [])[-200:]:
                 print(r)
